@@ -10,12 +10,86 @@ interleaving is one a real ThreadPoolExecutor run could produce.
 A schedule is recorded as the list of switches that happened ``[(step, to_task)]`` and can be
 replayed (and shrunk) by step index, independent of the PRNG.
 """
+import opcode as _opcode
 import sys
 import threading
 
 from . import HarnessError
 
 MAIN = -1
+
+# Opcode-granularity pre-emption only yields in front of these instructions.  They are the ones around which another
+# thread's action can matter inside one source line (a call, a return, a subscript / attribute store, an iteration
+# step), and -- unlike LOAD_FAST and friends -- they are never fused into super-instructions by the adaptive
+# interpreter, so the number of yield points of an execution does not depend on how warm the code is (replay by step
+# index stays exact across interpreters).
+_YIELD_OPS = frozenset(_opcode.opmap[n] for n in (
+    "CALL", "CALL_FUNCTION_EX", "RETURN_VALUE", "RETURN_CONST", "STORE_SUBSCR", "DELETE_SUBSCR", "STORE_ATTR",
+    "GET_ITER", "FOR_ITER", "BINARY_SUBSCR", "CONTAINS_OP", "YIELD_VALUE", "RAISE_VARARGS") if n in _opcode.opmap)
+_CODE_BYTES = {}
+
+# ---- instruction-level events come from sys.monitoring "local" events that are switched on ONCE per process for every
+# code object of the chosen files (sys.settrace's per-frame opcode tracing instruments a code object the first time a
+# frame of it is traced, so whether the first execution delivers events would depend on the history of the process --
+# and replay by step index would not be exact across interpreters).
+_MON_TOOL = 4
+_MON = {"pool": None, "files": set(), "ready": False}
+
+
+def _all_code_objects(files):
+    import types
+    seen = set()
+    out = []
+
+    def add(code):
+        if code in seen or code.co_filename not in files:
+            return
+        seen.add(code)
+        out.append(code)
+        for c in code.co_consts:
+            if isinstance(c, types.CodeType):
+                add(c)
+
+    def visit(obj, depth=0):
+        f = getattr(obj, "__func__", obj)
+        f = getattr(f, "fget", f) if isinstance(f, property) else f
+        code = getattr(f, "__code__", None)
+        if isinstance(code, types.CodeType):
+            add(code)
+        if isinstance(obj, type) and depth < 3:
+            for v in list(vars(obj).values()):
+                visit(v, depth + 1)
+    for mod in list(sys.modules.values()):
+        if getattr(mod, "__file__", None) in files:
+            for v in list(vars(mod).values()):
+                if getattr(v, "__module__", None) == mod.__name__ or isinstance(v, (staticmethod, classmethod, property)):
+                    visit(v)
+    return out
+
+
+def _instruction_event(code, offset):
+    pool = _MON["pool"]
+    if pool is None:
+        return
+    raw = _CODE_BYTES.get(code)
+    if raw is None:
+        raw = _CODE_BYTES[code] = code.co_code              # the un-specialised bytecode
+    if raw[offset] in _YIELD_OPS:
+        pool.yield_point(code.co_name, -offset)
+
+
+def ensure_instruction_events(files):
+    files = set(files) - _MON["files"]
+    if not files:
+        return
+    mon = sys.monitoring
+    if not _MON["ready"]:
+        mon.use_tool_id(_MON_TOOL, "simkit-simpool")
+        mon.register_callback(_MON_TOOL, mon.events.INSTRUCTION, _instruction_event)
+        _MON["ready"] = True
+    for code in _all_code_objects(files):
+        mon.set_local_events(_MON_TOOL, code, mon.events.INSTRUCTION)
+    _MON["files"] |= files
 
 
 class SimDeadlock(HarnessError):
@@ -68,6 +142,8 @@ class SimPool(object):
         self.policy = dict(policy or {"kind": "walk", "p": 0.1})
         self.traced = set(traced_files) | set(opcode_files)
         self.opcode_files = set(opcode_files)
+        if self.opcode_files:
+            ensure_instruction_events(self.opcode_files)
         self.max_steps = max_steps
         self.tasks = []
         self.queue = []
@@ -130,21 +206,35 @@ class SimPool(object):
         return self.cur is self.main
 
     # ---------------------------------------------------------------- tracing
+    def trace_main_now(self):
+        """Start tracing the calling (main) thread before the code under test is entered, so that every frame of it is
+        created under the tracer.  (Attaching to frames that are already running works, but whether their first events are
+        delivered depends on whether their code objects were instrumented before -- i.e. on the history of the process.)"""
+        if self._main_traced or not self.traced:
+            return
+        self._main_traced = True
+        self._main_ident = threading.get_ident()
+        if self.opcode_files:
+            _MON["pool"] = self
+        sys.settrace(self._tracer)
+
     def _trace_main(self):
         if self._main_traced or not self.traced:
             return
         self._main_traced = True
         self._main_ident = threading.get_ident()
+        if self.opcode_files:
+            _MON["pool"] = self
         sys.settrace(self._tracer)
         f = sys._getframe(2)
         while f is not None:
             if f.f_code.co_filename in self.traced:
                 f.f_trace = self._local
-                if f.f_code.co_filename in self.opcode_files:
-                    f.f_trace_opcodes = True
             f = f.f_back
 
     def _untrace_main(self):
+        if _MON["pool"] is self:
+            _MON["pool"] = None
         if self._main_traced:
             sys.settrace(None)
             f = sys._getframe(1)
@@ -158,12 +248,10 @@ class SimPool(object):
         fn = frame.f_code.co_filename
         if fn not in self.traced:
             return None
-        if fn in self.opcode_files:
-            frame.f_trace_opcodes = True
         return self._local
 
     def _local(self, frame, event, arg):
-        if event == "line" or event == "opcode":
+        if event == "line":
             self.yield_point(frame.f_code.co_name, frame.f_lineno)
         return self._local
 
